@@ -278,6 +278,32 @@ class Interp:
             v = self.project(st, v, e)
         return v
 
+    def bigval_to_struct(self, st, p):
+        """(sign, magnitude) form of a BigInt value known only as a polynomial: the sign must be evident - all terms of one sign,
+        or a difference P - N whose order is a recorded fact - otherwise a single opaque symbol is split by sign"""
+        if not p.t:
+            return BIGINT(SIGN(0), Poly())
+        pos = Poly()
+        neg = Poly()
+        pos.t = {k_: c_ for k_, c_ in p.t.items() if c_ > 0}
+        neg.t = {k_: -c_ for k_, c_ in p.t.items() if c_ < 0}
+        signed_syms = [s_ for s_ in p.symbols() if s_.startswith("egcd") or (s_.startswith("I") and s_ not in st.signed_split)]
+        if not signed_syms:
+            if not neg.t:
+                kz = st.known_zero(p)
+                return BIGINT(SIGN(1) if kz is False else (SIGN(0) if kz else SIGN(1, p)), Poly() if kz else p)
+            if not pos.t:
+                kz = st.known_zero(neg)
+                return BIGINT(SIGN(-1) if kz is False else (SIGN(0) if kz else SIGN(-1, neg)), Poly() if kz else neg)
+            if (repr(neg), repr(pos)) in st.lt:
+                return BIGINT(SIGN(1), p)
+            if (repr(pos), repr(neg)) in st.lt:
+                return BIGINT(SIGN(-1), neg - pos)
+        sym = p.single_symbol()
+        if sym and sym not in st.signed_split and not sym.startswith("U"):
+            raise NeedFork(("signsplit", sym))
+        raise Unsupported("sign of the computed BigInt value %r is not evident" % (p,))
+
     def project(self, st, v, e):
         k = e["k"]
         if k == "deref":
@@ -296,6 +322,8 @@ class Interp:
                 return v[3][e["idx"]]
             if v[0] == "mag":
                 raise Unsupported("access to BigUint internals")
+            if v[0] == "bigval":
+                return self.project(st, self.bigval_to_struct(st, v[1]), e)
             raise Unsupported("field of %s" % v[0])
         if k == "downcast":
             return v
@@ -829,7 +857,15 @@ class Interp:
                                 raise NeedFork(("zero", pp))
                             return BOOL((not kz) if o == "Lt" else kz)
                 # undecided comparison: only an error if somebody branches on it (overflow-check conditions are never branched on)
-                return ("boolsym", "%s(%r,%r)" % (op, pa, pb))
+                return ("boolsym", "%s(%r,%r)" % (op, pa, pb), op, pa, pb)
+            if (base == "Rem" and pb.is_const() and pb.const_value() == 2 or base == "BitAnd" and pb.is_const() and pb.const_value() == 1) and not pa.is_const():
+                # parity of a scalar: the same opaque predicate that is_odd()/is_even() use
+                key = "is_odd(%r)" % (pa,)
+                if key not in st.bools:
+                    raise NeedFork(("bool", key))
+                if st.bools[key] and pa.single_symbol():
+                    st.nz.add(pa.single_symbol())
+                return INT(1 if st.bools[key] else 0, a[2])
             if base in ("Div", "Rem"):
                 # primitive division of magnitudes -> Q/R symbols
                 q, r = self.divsyms(st, pa, pb)
